@@ -1,7 +1,7 @@
 ---------------------------- MODULE GatherTrace ----------------------------
 (* Trace validation (B2) for Gather: each line of the ndjson file is one recorded execution of the real
    bounded_gather2 under the deterministic event loop:
-     [mode, bound, ev |-> << [a |-> "Start"|"Complete"|"Fail"|"Step", t, post |-> [...]], ... >>]
+     [mode, bound, ev |-> << [a |-> "Start"|"Complete"|"Fail"|"FailCancelled"|"Step", t, post |-> [...]], ... >>]
    Every event must be a step of Gather with the logged arguments whose successor state projects to the logged
    post-state (every logged field is constrained); a trace that cannot be continued is a deadlock.           *)
 EXTENDS Gather, Json, IOUtils
@@ -33,6 +33,7 @@ TraceStep ==
      /\ \/ e.a = "Start"    /\ Start
         \/ e.a = "Complete" /\ Complete(e.t)
         \/ e.a = "Fail"     /\ Fail(e.t)
+        \/ e.a = "FailCancelled" /\ FailCancelled(e.t)
         \/ e.a = "Step"     /\ Step
      /\ PostOk(e.post)
   /\ l' = l + 1 /\ UNCHANGED tid
